@@ -35,7 +35,8 @@ FloatBad(c) == c \in {"nan", "inf", "ninf"}
 NumberTextOk(c) == c \in NumClasses \cup {"se", "s12", "p9"} \cup QClasses
 
 \* bytewise order of the map keys used by the generators
-KeySeq == <<"", "-1", "1", "12", "300", "9", "K", "a", "k", "old", "x">>
+KeySeq == <<"", "-1", "-129", "-40000", "-9223372036854775808", "1", "12", "200", "300", "3000000000", "40000", "5000000000", "9", "9223372036854775808",
+           "K", "a", "k", "old", "x">>
 KeyRank(k) == CHOOSE i \in 1..Len(KeySeq) : KeySeq[i] = k
 RECURSIVE SortMembers(_)
 SortMembers(S) == IF S = {} THEN <<>>
